@@ -4,10 +4,11 @@ C05 — crashes and cache damage never leave a build wrong.
 
 * `atomic_files_whole` (full strength): a file written only through `atomic_write` (manifest,
   blobs) is, after EVERY prefix of a run's steps, as it was / absent / complete.
-* `read_blob_exact`, `damage_is_miss`, `manifest_damage_is_miss` (full strength for what the code
-  checks): whatever bytes replace a blob or the manifest, the next run sees a miss unless the 8-byte
-  header survives and the opaque decoder accepts the payload / unless toml accepts the bytes as a
-  manifest with the right key.
+* `read_blob_exact`, `damage_is_miss`, `diag_damage_is_miss` (full strength, unconditional on the
+  decoders since commits 7005a14 / 1f0da8d): whatever replaces a fragment or diagnostics blob, the
+  file is a miss or the blob is byte-identical to the original (BLAKE3 = `name`, no second preimage);
+  `manifest_damage_is_miss`: the store opens empty unless toml accepts the bytes as a manifest with
+  the right key.
 * `C05_truncated_output_survives` (NEGATION of the recovery statement for the code as it is):
   build; delete `b.sv`; next build killed between `open(O_TRUNC)` and `write` of `b.sv`; next
   build restores `b` from the cache and leaves `b.sv` empty.
@@ -15,9 +16,8 @@ C05 — crashes and cache damage never leave a build wrong.
   repair alone): `dst_is_stale` never looks at the `.sv.map`.
 * `C05_revert_keeps_crashed_output` (NEGATION, even with atomic output writes): an edit undone with its
   old mtime after the crash makes the crashed run's complete-but-unrecorded output a "fresh" hit.
-* `C05_blob_payload_not_verified` (NEGATION): a blob with intact header and changed payload is restored
-  whenever the decoder accepts it.
-* `C05_diag_blob_damage_drops_warnings` (NEGATION): an unreadable diagnostics blob is not a miss.
+* `old_blob_payload_not_verified`, `old_diag_blob_damage_drops_warnings`: the two repaired defects, as
+  negations about the `…Old` definitions.
 * `recovery_partial`: what does hold for the code as it is; `recovery_fixed`: the repair (staleness test
   also compares the outputs' own mtimes with the recorded stamp) for which the statement holds at every
   crash point and for every edit history (`recovery_fixed_closed`: the statement negated above, proved
@@ -63,7 +63,7 @@ theorem plan_atomic_files_whole (now : Nat) (mode : OutMode) (pl : Plan) (hwf : 
     crash now fs (pl.steps mode) n p = fs p ∨ crash now fs (pl.steps mode) n p = none ∨
     ∃ c, crash now fs (pl.steps mode) n p = some ⟨c, now⟩ ∧
       ((p = .manifest ∧ pl.manifest = some (match c with | .man m => m | _ => emptyMan 0) ∧ ∃ m, c = .man m) ∨
-       (∃ b d, p = .blob b ∧ (b, d) ∈ pl.blobs ++ pl.diagBlobs ∧ c = .raw d)) := by
+       (∃ b d, p = .blob b ∧ (P1.blob b d ∈ pl.pass1 ∨ (b, d) ∈ pl.diagBlobs) ∧ c = .raw d)) := by
   simp only [Plan.steps]
   have hreal : p.isTmp = false := by rcases hp with rfl | ⟨b, rfl⟩ <;> rfl
   have hnot : ¬ IsOut p := by rcases hp with rfl | ⟨b, rfl⟩ <;> (rintro ⟨f, h | h⟩ <;> cases h)
@@ -74,21 +74,24 @@ theorem plan_atomic_files_whole (now : Nat) (mode : OutMode) (pl : Plan) (hwf : 
   have key : ∀ b ∈ pl.blocks mode, b.target = p →
       ((∃ k cs, b = .atomic k p cs ∧
           ((p = .manifest ∧ ∃ m, pl.manifest = some m ∧ cs = [.man m]) ∨
-           (∃ n d, p = .blob n ∧ (n, d) ∈ pl.blobs ++ pl.diagBlobs ∧ cs = [.raw d]))) ∨ b = .unlink p) := by
+           (∃ n d, p = .blob n ∧ (P1.blob n d ∈ pl.pass1 ∨ (n, d) ∈ pl.diagBlobs) ∧ cs = [.raw d]))) ∨ b = .unlink p) := by
     intro b hb ht
     simp only [Plan.blocks, Plan.pre, Plan.pre0, Plan.pre1, Plan.outBlocks, Plan.mid, Plan.post, List.mem_append,
       List.mem_map, List.mem_cons, List.mem_nil_iff, or_false] at hb
     rcases hb with (((((rfl | rfl) | ⟨x, hx, rfl⟩) | ⟨o, ho, rfl⟩) | (hb | ⟨x, hx, rfl⟩)) | hb) | (⟨x, hx, rfl⟩ | hb)
     · exact absurd ht.symm (hpl 0)
     · exact absurd ht.symm (hpl 1)
-    · left; simp only [Block.target] at ht; subst ht
-      exact ⟨_, _, rfl, Or.inr ⟨x.1, x.2, rfl, List.mem_append_left _ hx, rfl⟩⟩
+    · cases x with
+      | purge n => right; simp only [P1.block, Block.target] at ht; subst ht; rfl
+      | blob n d =>
+        left; simp only [P1.block, Block.target] at ht; subst ht
+        exact ⟨_, _, rfl, Or.inr ⟨n, d, rfl, Or.inl hx, rfl⟩⟩
     · rw [target_writeFile] at ht; subst ht; exact absurd (hwf o ho) hnot
     · cases hf : pl.filelist with
       | none => simp [hf] at hb
       | some d => simp only [hf, List.mem_singleton] at hb; subst hb; rw [target_writeFile] at ht; exact absurd ht.symm hpf
     · left; simp only [Block.target] at ht; subst ht
-      exact ⟨_, _, rfl, Or.inr ⟨x.1, x.2, rfl, List.mem_append_right _ hx, rfl⟩⟩
+      exact ⟨_, _, rfl, Or.inr ⟨x.1, x.2, rfl, Or.inr hx, rfl⟩⟩
     · cases hm : pl.manifest with
       | none => simp [hm] at hb
       | some m =>
@@ -114,10 +117,11 @@ theorem plan_atomic_files_whole (now : Nat) (mode : OutMode) (pl : Plan) (hwf : 
 
 /-! ## T2: damage -/
 
-/-- `read_blob` returns a payload exactly when the file is `MAGIC ++ VERSION ++ payload`. -/
-theorem read_blob_exact (magic ver d pl : Bytes) (hv : ver.length = 4) :
-    readBlob magic ver d = some pl ↔ d = magic ++ ver ++ pl := by
-  unfold readBlob
+/-- The header check alone (`read_blob` before commit 7005a14, and the second half of it since):
+    a payload is returned exactly when the file is `MAGIC ++ VERSION ++ payload`. -/
+theorem read_blob_old_exact (magic ver d pl : Bytes) (hv : ver.length = 4) :
+    readBlobOld magic ver d = some pl ↔ d = magic ++ ver ++ pl := by
+  unfold readBlobOld
   by_cases hpre : magic.isPrefixOf d = true
   · obtain ⟨t, rfl⟩ := List.isPrefixOf_iff_prefix.mp hpre
     simp only [hpre, if_true, List.drop_left]
@@ -155,23 +159,34 @@ theorem read_blob_exact (magic ver d pl : Bytes) (hv : ver.length = 4) :
       subst h
       exact absurd (List.isPrefixOf_iff_prefix.mpr ⟨ver ++ pl, by simp [List.append_assoc]⟩) hpre
 
-/-- Truncating a blob below its 8-byte header is a miss. -/
-theorem truncated_header_is_miss (magic ver d : Bytes) (hv : ver.length = 4) (h : d.length < magic.length + 4) :
-    readBlob magic ver d = none := by
-  cases hr : readBlob magic ver d with
+/-- `read_blob` (current code) returns a payload exactly when the bytes hash to the file's name AND
+    the file is `MAGIC ++ VERSION ++ payload`. -/
+theorem read_blob_exact (name : Bytes → Nat) (magic ver : Bytes) (n : Nat) (d pl : Bytes) (hv : ver.length = 4) :
+    readBlob name magic ver n d = some pl ↔ name d = n ∧ d = magic ++ ver ++ pl := by
+  unfold readBlob
+  by_cases hn : name d = n
+  · simp [hn, read_blob_old_exact magic ver d pl hv]
+  · simp [hn]
+
+/-- Truncating a blob below its 8-byte header is a miss (already by the header check). -/
+theorem truncated_header_is_miss (name : Bytes → Nat) (magic ver : Bytes) (n : Nat) (d : Bytes)
+    (hv : ver.length = 4) (h : d.length < magic.length + 4) :
+    readBlob name magic ver n d = none := by
+  cases hr : readBlob name magic ver n d with
   | none => rfl
   | some pl =>
-    have := (read_blob_exact magic ver d pl hv).mp hr
+    have := ((read_blob_exact name magic ver n d pl hv).mp hr).2
     subst this
     simp [hv] at h
     omega
 
-/-- Whatever replaces the fragment blob of `f` (any cell, or deletion): `try_restore` fails (a miss)
-    — unless the file is a well-formed blob whose payload the opaque decoder accepts. -/
-theorem damage_is_miss (E : Env) (hv : E.ver.length = 4) (m : Man) (fs : FS) (f : File) (n : Nat)
-    (hn : lookupNat m.blobOf f = some n) (x : Option Cell) :
-    restoreOk E m (fs.set (.blob n) x) f = false ∨
-    ∃ pl t, x = some ⟨.raw (blobData E pl), t⟩ ∧ E.decode pl = true := by
+/-- `damage_is_miss`, fragment blob — unconditional on the decoder: whatever replaces the fragment
+    blob of `f` (any cell, or deletion), `try_restore` fails (a miss) or the file is byte-identical to
+    the original.  `hname`: no other byte string hashes to the blob's name (BLAKE3, trusted). -/
+theorem damage_is_miss (E : Env) (m : Man) (fs : FS) (f : File) (n : Nat)
+    (hn : lookupNat m.blobOf f = some n) (orig : Bytes) (hname : ∀ d, E.name d = n → d = blobData E orig)
+    (x : Option Cell) :
+    restoreOk E m (fs.set (.blob n) x) f = false ∨ content x = some (.raw (blobData E orig)) := by
   unfold restoreOk loadBlob
   simp only [hn, set_same]
   cases x with
@@ -180,25 +195,85 @@ theorem damage_is_miss (E : Env) (hv : E.ver.length = 4) (m : Man) (fs : FS) (f 
     obtain ⟨c, t⟩ := cell
     cases c with
     | raw d =>
-      cases hr : readBlob E.magic E.ver d with
-      | none => left; simp [hr]
-      | some pl =>
-        have hd := (read_blob_exact E.magic E.ver d pl hv).mp hr
-        cases hdec : E.decode pl with
-        | false => left; simp [hr, hdec]
-        | true => right; exact ⟨pl, t, by simp [blobData, hd], hdec⟩
+      by_cases hd : E.name d = n
+      · right; rw [hname d hd]; rfl
+      · left; simp [readBlob, hd]
     | man _ => left; rfl
     | inf _ => left; rfl
 
-/-- With `H_decode` (the decoder accepts no payload but the original) the damaged blob is a miss or
-    byte-identical to the original. -/
-theorem damage_is_miss_or_original (E : Env) (hv : E.ver.length = 4) (m : Man) (fs : FS) (f : File) (n : Nat)
-    (hn : lookupNat m.blobOf f = some n) (orig : Bytes) (hdec : ∀ pl, E.decode pl = true → pl = orig)
+/-- The same from injectivity of the naming function. -/
+theorem damage_is_miss_of_injective (E : Env) (hinj : ∀ a b, E.name a = E.name b → a = b) (m : Man) (fs : FS)
+    (f : File) (orig : Bytes) (hn : lookupNat m.blobOf f = some (E.name (blobData E orig))) (x : Option Cell) :
+    restoreOk E m (fs.set (.blob (E.name (blobData E orig))) x) f = false ∨
+    content x = some (.raw (blobData E orig)) :=
+  damage_is_miss E m fs f _ hn orig (fun _ hd => hinj _ _ hd) x
+
+/-- `read_blob` removes only files it rejects: a blob it deletes could not have been loaded. -/
+theorem purged_blob_was_a_miss (E : Env) (fs : FS) (n : Nat) (h : purges E fs n = true) :
+    loadBlob E fs n = none := by
+  unfold purges at h
+  unfold loadBlob
+  cases hc : fs (.blob n) with
+  | none => rfl
+  | some cell =>
+    obtain ⟨c, t⟩ := cell
+    cases c with
+    | raw d =>
+      have : ¬ E.name d = n := by simpa [hc] using h
+      simp [readBlob, this]
+    | man _ => rfl
+    | inf _ => rfl
+
+/-- `damage_is_miss`, diagnostics blob (commit 1f0da8d): whatever replaces the blob an entry names as
+    `diagnostics`, the file is a miss or the blob is byte-identical to the original. -/
+theorem diag_damage_is_miss (E : Env) (m : Man) (fs : FS) (f : File) (k : Nat)
+    (hk : lookupNat m.diagOf f = some k) (orig : Bytes) (hname : ∀ d, E.name d = k → d = blobData E orig)
     (x : Option Cell) :
-    restoreOk E m (fs.set (.blob n) x) f = false ∨ content x = some (.raw (blobData E orig)) := by
-  rcases damage_is_miss E hv m fs f n hn x with h | ⟨pl, t, rfl, hd⟩
-  · exact Or.inl h
-  · right; rw [hdec pl hd]; rfl
+    restoreOk E m (fs.set (.blob k) x) f = false ∨ content x = some (.raw (blobData E orig)) := by
+  have hdiag : diagOk E m (fs.set (.blob k) x) f = false ∨ content x = some (.raw (blobData E orig)) := by
+    unfold diagOk loadBlob
+    simp only [hk, set_same]
+    cases x with
+    | none => left; rfl
+    | some cell =>
+      obtain ⟨c, t⟩ := cell
+      cases c with
+      | raw d =>
+        by_cases hd : E.name d = k
+        · right; rw [hname d hd]; rfl
+        · left; simp [readBlob, hd]
+      | man _ => left; rfl
+      | inf _ => left; rfl
+  rcases hdiag with hd | hd
+  · left
+    unfold restoreOk
+    cases hb : lookupNat m.blobOf f with
+    | none => rfl
+    | some n =>
+      cases hl : loadBlob E (fs.set (.blob k) x) n with
+      | none => simp [hl]
+      | some pl => simp [hl, hd]
+  · exact Or.inr hd
+
+/-- A restored file replays exactly what its intact diagnostics blob holds: `restoreOk` implies the
+    blob loaded (so nothing is dropped silently any more). -/
+theorem restored_diagnostics_loaded (E : Env) (m : Man) (fs : FS) (f : File) (k : Nat)
+    (hk : lookupNat m.diagOf f = some k) (h : restoreOk E m fs f = true) :
+    ∃ pl, loadBlob E fs k = some pl ∧ E.decodeDiag pl = true := by
+  unfold restoreOk at h
+  cases hb : lookupNat m.blobOf f with
+  | none => simp [hb] at h
+  | some n =>
+    cases hl : loadBlob E fs n with
+    | none => simp [hb, hl] at h
+    | some pl =>
+      simp only [hb, hl, Bool.and_eq_true] at h
+      have hd := h.1
+      unfold diagOk at hd
+      simp only [hk] at hd
+      cases hl2 : loadBlob E fs k with
+      | none => simp [hl2] at hd
+      | some pl2 => exact ⟨pl2, rfl, by simpa [hl2] using hd⟩
 
 /-- Whatever replaces `manifest.toml`: the store opens empty — unless toml parses the bytes as a
     manifest carrying the current global key (`H_parse`). -/
@@ -439,44 +514,53 @@ example (n : Nat) : ∀ f ∈ wW.files, OutputsOk wE wW
     · cases h; decide
     · cases h
 
-/-! ## blob payloads are not verified -/
+/-! ## the code before commits 7005a14 / 1f0da8d (kept as `old_…` witnesses about the `…Old` definitions) -/
 
 def wManD : Man :=
   { key := 1, files := [(1, { hash := 7, frag := true, dependents := [] })], blobOf := [(1, 1)], diagOf := [(1, 9)] }
 def wFsD : FS :=
   (emptyFS.set (.blob 1) (some ⟨.raw [86, 70, 82, 71, 2, 0, 0, 0, 1], 10⟩)).set (.blob 9)
-    (some ⟨.raw [86, 70, 82, 71, 2, 0, 0, 0, 5], 10⟩)
+    (some ⟨.raw [86, 70, 82, 71, 2, 0, 0, 0, 9], 10⟩)
 
-
-/-- "Whatever replaces a fragment blob, the file is a miss or the blob is byte-identical to the original." -/
-def BlobDamageStmt : Prop :=
+/-- "Whatever replaces a fragment blob, the file is a miss or the blob is byte-identical to the original",
+    for the old `read_blob`. -/
+def BlobDamageStmtOld : Prop :=
   ∀ (E : Env) (m : Man) (fs : FS) (f : File) (n : Nat) (orig : Bytes) (x : Option Cell),
     E.ver.length = 4 → lookupNat m.blobOf f = some n → fs (.blob n) = some ⟨.raw (blobData E orig), 10⟩ →
-    restoreOk E m (fs.set (.blob n) x) f = false ∨ content x = some (.raw (blobData E orig))
+    restoreOkOld E m (fs.set (.blob n) x) f = false ∨ content x = some (.raw (blobData E orig))
 
-/-- `read_blob` compares magic and version only (the BLAKE3 in the file name is never recomputed): a
-    blob whose payload bytes changed is restored whenever the decoder accepts them. -/
-theorem C05_blob_payload_not_verified : ¬ BlobDamageStmt := by
+/-- The old `read_blob` compared magic and version only: a blob whose payload bytes changed was restored
+    whenever the decoder accepted them (findings F5/F6, repaired by 7005a14; now `damage_is_miss`). -/
+theorem old_blob_payload_not_verified : ¬ BlobDamageStmtOld := by
   intro h
   have := h wE wManD wFsD 1 1 [1] (some ⟨.raw [86, 70, 82, 71, 2, 0, 0, 0, 3], 10⟩) (by decide) (by decide) (by decide)
   revert this
   decide
 
-/-! ## cached diagnostics: an unreadable blob is not a miss -/
+/-- …and the current `restoreOk` rejects that very blob. -/
+example : restoreOk wE wManD (wFsD.set (.blob 1) (some ⟨.raw [86, 70, 82, 71, 2, 0, 0, 0, 3], 10⟩)) 1 = false := by
+  decide
 
-/-- "Damaging the diagnostics blob of a file makes the file a miss or changes nothing it replays." -/
-def DiagDamageStmt : Prop :=
+/-- "Damaging the diagnostics blob of a file makes the file a miss or changes nothing it replays",
+    for the old `try_restore`. -/
+def DiagDamageStmtOld : Prop :=
   ∀ (E : Env) (dd : Bytes → Option (List Nat)) (m : Man) (fs : FS) (f : File) (n : Nat) (x : Option Cell),
     lookupNat m.diagOf f = some n → lookupNat m.blobOf f ≠ some n →
-    restoreOk E m (fs.set (.blob n) x) f = false ∨
-    replayed E dd m (fs.set (.blob n) x) f = replayed E dd m fs f
+    restoreOkOld E m (fs.set (.blob n) x) f = false ∨
+    replayedOld E dd m (fs.set (.blob n) x) f = replayedOld E dd m fs f
 
-/-- `try_restore`: `load_diagnostics` failing gives `None`, the file is restored all the same and
-    replays nothing: deleting (or truncating) the blob silently drops the file's warnings. -/
-theorem C05_diag_blob_damage_drops_warnings : ¬ DiagDamageStmt := by
+/-- The old `try_restore`: `load_diagnostics` failing gave `None`, the file was restored all the same and
+    replayed nothing (finding F3, repaired by 1f0da8d; now `diag_damage_is_miss`). -/
+theorem old_diag_blob_damage_drops_warnings : ¬ DiagDamageStmtOld := by
   intro h
   have := h wE (fun _ => some [42]) wManD wFsD 1 9 none (by decide) (by decide)
   revert this
   decide
+
+/-- …and the current `restoreOk` makes that file a miss. -/
+example : restoreOk wE wManD (wFsD.set (.blob 9) none) 1 = false := by decide
+
+/-- non-vacuity of `damage_is_miss` / `diag_damage_is_miss`: the intact witness store restores file 1 -/
+example : restoreOk wE wManD wFsD 1 = true := by decide
 
 end VerylModel.Props.C05
